@@ -7,8 +7,13 @@ import (
 	"bufio"
 	"fmt"
 	"os"
+	"os/exec"
+	"os/signal"
 	"runtime"
+	"strconv"
 	"strings"
+	"sync"
+	"syscall"
 	"time"
 
 	"github.com/mutagen-io/mutagen/pkg/daemon"
@@ -20,7 +25,79 @@ type lockResult struct {
 	err  error
 }
 
+// agentMain is the "agent" mode: a fake agent process for the transport stream
+// (C35). It echoes its standard input to its standard output, reports the end of
+// its input and SIGTERM on the event pipe (descriptor 4) and exits only when told
+// to on the control pipe (descriptor 3): the simulator decides how it behaves.
+func agentMain() {
+	// Not for grandchildren: the simulator takes the end of the event pipe as
+	// the end of this process.
+	syscall.CloseOnExec(3)
+	syscall.CloseOnExec(4)
+	control := os.NewFile(3, "control")
+	events := os.NewFile(4, "events")
+	var mu sync.Mutex
+	event := func(e string) {
+		mu.Lock()
+		fmt.Fprintln(events, e)
+		mu.Unlock()
+	}
+	sig := make(chan os.Signal, 4)
+	signal.Notify(sig, syscall.SIGTERM)
+	go func() {
+		for range sig {
+			event("sigterm")
+		}
+	}()
+	if os.Getenv("VERIF_AGENT_GRANDCHILD") == "1" {
+		// A grandchild that inherits the output and error pipes and outlives
+		// this process for a while (it does not inherit the control and event
+		// pipes, so its life is invisible to the simulator).
+		gc := exec.Command(os.Args[0], "sleeper")
+		gc.Stdout, gc.Stderr = os.Stdout, os.Stderr
+		gc.Start()
+	}
+	if n, _ := strconv.Atoi(os.Getenv("VERIF_AGENT_CHATTER")); n > 0 {
+		go func() {
+			for i := 0; ; i++ {
+				fmt.Fprintf(os.Stderr, "agent chatter line %d\n", i)
+				time.Sleep(time.Duration(n) * time.Millisecond)
+			}
+		}()
+	}
+	go func() {
+		buf := make([]byte, 32768)
+		for {
+			n, err := os.Stdin.Read(buf)
+			if n > 0 {
+				os.Stdout.Write(buf[:n])
+			}
+			if err != nil {
+				event("stdin-eof")
+				return
+			}
+		}
+	}()
+	event("ready")
+	in := bufio.NewScanner(control)
+	for in.Scan() {
+		if in.Text() == "exit" {
+			os.Exit(0)
+		}
+	}
+	// The simulator went away: do not linger.
+	os.Exit(3)
+}
+
 func main() {
+	if len(os.Args) > 1 && os.Args[1] == "agent" {
+		agentMain()
+		return
+	}
+	if len(os.Args) > 1 && os.Args[1] == "sleeper" {
+		time.Sleep(4 * time.Second)
+		return
+	}
 	var lock *daemon.Lock
 	var pending chan lockResult
 	var pendingProceed chan struct{}
